@@ -11,6 +11,13 @@ S = rl.S
 EXTRA = {"notes.txt": "not a source file\n", "src/readme.md": "out of scope\n"}
 
 
+def tiered(cfg, tier):
+    """intended/X.cfg -> intended/XT.cfg in the thorough tier when that file exists"""
+    import os
+    t = cfg.replace(".cfg", "T.cfg")
+    return t if tier == "thorough" and os.path.exists(os.path.join(common.SPEC, t)) else cfg
+
+
 def model_step(v, cfg, need=(), module="MCRun.tla", workers=None):
     r = run_tlc(module, cfg, workers=workers or min(12, common.NCPU))
     require_tlc_ok(r, cfg, need_actions=need)
@@ -206,7 +213,7 @@ def c02(tier):
 
 def c04(tier):
     v = Verdict("C04", tier)
-    model_step(v, "intended/C04.cfg", need=("ScanFile", "Signal", "Kill"))
+    model_step(v, tiered("intended/C04.cfg", tier), need=("ScanFile", "Signal", "Kill"))
     binary = common.build_breadlog()
     batch = rl.Batch()
     n = 0
@@ -358,7 +365,7 @@ rl.FOLLOW["readback"] = follow_readback
 
 def c07(tier):
     v = Verdict("C07", tier)
-    model_step(v, "intended/C07.cfg", need=("RenameTmp", "Drain", "FlushTmp", "Kill", "DropTmp"))
+    model_step(v, tiered("intended/C07.cfg", tier), need=("RenameTmp", "Drain", "FlushTmp", "Kill", "DropTmp"))
     expect_counterexample(v, "asfound/C07noflush.cfg", ("AtomicFiles",))
     binary = common.build_breadlog()
     batch = rl.Batch()
@@ -372,6 +379,9 @@ def c07(tier):
         scens.append(rl.sized_tree("sized-200k", 200000, nfiles=2))
         scens.append(rl.sized_tree("sized-1m", 1100000, nfiles=1, structured=True))
         scens += rl.small_trees(structured=False, lock=30)
+        scens += rl.small_trees(structured=True, lock=30)
+        scens.append(rl.Scenario("five-files", {"f%d.rs" % i: [S(10 * i + 1), S(10 * i + 2, ref=i)] for i in range(1, 6)}, structured=True))
+        scens.append(rl.Scenario("crlf-unicode", {"f1.rs": [S(11), S(12)], "f2.rs": [S(21)]}, crlf=True, unicode_prelude=True, pad=20000))
     for sc in scens:
         sc.kw["extra_files"] = EXTRA
         K, n = rl.sweep(binary, sc, "edit", kinds, batch, v)
@@ -387,7 +397,7 @@ def c07(tier):
 
 def c08(tier):
     v = Verdict("C08", tier)
-    model_step(v, "intended/C08.cfg", need=("CreateTmp", "RenameTmp", "Drain", "FlushTmp", "Exit"))
+    model_step(v, tiered("intended/C08.cfg", tier), need=("CreateTmp", "RenameTmp", "Drain", "FlushTmp", "Exit"))
     expect_counterexample(v, "asfound/C08ignored.cfg", ("FailureMeansNonZero", "ExitZeroDone"))
     binary = common.build_breadlog()
     batch = rl.Batch()
@@ -399,6 +409,9 @@ def c08(tier):
     if tier == "thorough":
         scens.append(rl.sized_tree("sized-300k", 300000, structured=True))
     tmpops = ("tmp.create", "tmp.write", "tmp.rename", "tmp.fsync", "tmp.unlink")
+    if tier == "thorough":
+        scens.append(rl.Scenario("five-files", {"f%d.rs" % i: [S(10 * i + 1), S(10 * i + 2, ref=i)] for i in range(1, 6)}, structured=False))
+        scens += rl.small_trees(structured=False, lock=30)
     for sc in scens:
         K, n = rl.sweep(binary, sc, "edit", errs + ["short"], batch, v, follow="check", only_ops=tmpops)
         log("[sweep] %s: %d operations, %d runs" % (sc.name, K, n))
@@ -464,7 +477,7 @@ def c16(tier):
 
 def c18(tier):
     v = Verdict("C18", tier)
-    model_step(v, "intended/C18.cfg", need=("Signal", "Discover", "ScanFile", "Pass1File", "Pass2Next", "LockWrite"))
+    model_step(v, tiered("intended/C18.cfg", tier), need=("Signal", "Discover", "ScanFile", "Pass1File", "Pass2Next", "LockWrite"))
     r = run_tlc("MCRun.tla", "intended/C18live.cfg", workers=min(8, common.NCPU), coverage=False)
     require_tlc_ok(r, "C18live")
     v.add_tlc(r, "intended/C18live.cfg (liveness: stop ~> exit)")
@@ -478,6 +491,10 @@ def c18(tier):
                 sc.name += "-lock%s" % lock
                 scens.append(sc)
     scens.append(rl.Scenario("all-referenced", {"f1.rs": [S(11, ref=1)], "f2.rs": [S(21, ref=2)]}))
+    if tier == "thorough":
+        scens.append(rl.Scenario("five-files", {"f%d.rs" % i: [S(10 * i + 1), S(10 * i + 2, ref=i)] for i in range(1, 6)}, lock=50))
+        scens.append(rl.sized_tree("sized-100k", 100000, lock=50))
+        scens.append(rl.Scenario("cache-off", {"f1.rs": [S(11)], "f2.rs": [S(21), S(22)]}, use_cache=False))
     for sc in scens:
         for mode in ("check", "edit"):
             K, n = rl.sweep(binary, sc, mode, ["INT", "TERM"], batch, v)
